@@ -248,8 +248,12 @@ surv0_ctx_send(void *arg, nni_aio *aio)
 	}
 
 	// save the survey time, so we know the maximum timeout to use when
-	// waiting for receive
-	ctx->expire = nni_clock() + survey_time;
+	// waiting for receive (an infinite survey time never expires)
+	if (survey_time < 0) {
+		ctx->expire = NNI_TIME_NEVER;
+	} else {
+		ctx->expire = nni_clock() + survey_time;
+	}
 
 	nni_mtx_unlock(&sock->mtx);
 	nni_msg_free(msg);
